@@ -8,7 +8,9 @@ function wrapping, progress reporting, and solution manipulation.
     from solvor.utils import random_permutation, pairwise_swap_neighbors
 """
 
+import sys
 from collections.abc import Callable, Iterator
+from contextlib import contextmanager
 from os import environ
 from random import Random
 from time import perf_counter
@@ -26,9 +28,24 @@ __all__ = [
     "default_progress",
     "Evaluator",
     "report_progress",
+    "recursion_limit",
 ]
 
 _DEBUG = bool(environ.get("DEBUG"))
+
+
+@contextmanager
+def recursion_limit(depth: int) -> Iterator[None]:
+    """Let a recursive search go `depth` frames deeper than the interpreter's limit allows.
+
+    Raises sys.getrecursionlimit() for the duration of the block and restores it afterwards.
+    """
+    old_limit = sys.getrecursionlimit()
+    sys.setrecursionlimit(max(old_limit, old_limit + depth))
+    try:
+        yield
+    finally:
+        sys.setrecursionlimit(old_limit)
 
 
 def debug(*args, **kwargs) -> None:
